@@ -1157,6 +1157,30 @@ spec fn core_ok(jobs: Seq<NodeInfo>, m: Map<String, usize>, dag: &GraphType, rea
     &&& cleanup_set_wf(jobs, cleanup, m)
     &&& out_wf(jobs)
     &&& (fin ==> forall|i: int| 0 <= i < jobs.len() ==> finished(#[trigger] jobs[i].state))
+    &&& gates_ok(jobs, dag)
+}
+
+/// states that presuppose finished upstreams (C02): offered, running, executed successfully, and the
+/// "ready but delayed" Ephemeral
+spec fn needs_up(s: JobState) -> bool {
+    is_ready(s) || is_running(s) || ran_ok(s) || s == JobState::Ephemeral(JobStateEphemeral::ReadyButDelayed)
+}
+
+spec fn all_down_done(dag: &GraphType, jobs: Seq<NodeInfo>, n: usize) -> bool {
+    forall|d: usize| #![trigger dag.is_nbr(n, Direction::Outgoing, d)]
+        dag.is_nbr(n, Direction::Outgoing, d) ==> finished(jobs[d as int].state)
+}
+
+/// an executed Ephemeral whose cleanup was offered or done
+spec fn cleanup_reached(s: JobState) -> bool {
+    is_rfc(s) || s == JobState::Ephemeral(JobStateEphemeral::FinishedSuccessCleanedUp)
+}
+
+/// G1 (C02): a job that is offered / running / done successfully has only finished direct upstreams;
+/// G2 (C02, C13): an Ephemeral whose cleanup was offered has only finished direct downstreams
+spec fn gates_ok(jobs: Seq<NodeInfo>, dag: &GraphType) -> bool {
+    &&& forall|i: int| 0 <= i < jobs.len() && needs_up(#[trigger] jobs[i].state) ==> all_up_done(dag, jobs, i as usize)
+    &&& forall|i: int| 0 <= i < jobs.len() && cleanup_reached(#[trigger] jobs[i].state) ==> all_down_done(dag, jobs, i as usize)
 }
 
 /// the structural part of the representation invariant (everything but W5)
@@ -1166,11 +1190,72 @@ spec fn core_struct(jobs: Seq<NodeInfo>, m: Map<String, usize>, dag: &GraphType,
     &&& ready_set_wf(jobs, ready, m)
     &&& cleanup_set_wf(jobs, cleanup, m)
     &&& (fin ==> forall|i: int| 0 <= i < jobs.len() ==> finished(#[trigger] jobs[i].state))
+    &&& gates_ok(jobs, dag)
 }
 
 /// the cascade invariant with job x exempt from W5 (x = -1: nobody)
 spec fn core_ok_x(jobs: Seq<NodeInfo>, m: Map<String, usize>, dag: &GraphType, ready: Set<String>, cleanup: Set<String>, fin: bool, x: int) -> bool {
     core_struct(jobs, m, dag, ready, cleanup, fin) && out_wf_x(jobs, x)
+}
+
+proof fn lemma_gates_after_write(pre: Seq<NodeInfo>, post: Seq<NodeInfo>, dag: &GraphType, n: int)
+    requires
+        gates_ok(pre, dag), one_changed(pre, post, n), edges_in_range(dag, pre.len()),
+        finished(pre[n].state) ==> finished(post[n].state),
+        needs_up(post[n].state) ==> needs_up(pre[n].state) || all_up_done(dag, pre, n as usize),
+        cleanup_reached(post[n].state) ==> cleanup_reached(pre[n].state) || all_down_done(dag, pre, n as usize),
+    ensures gates_ok(post, dag),
+{
+    assert forall|i: int| 0 <= i < post.len() && needs_up(#[trigger] post[i].state) implies all_up_done(dag, post, i as usize) by {
+        assert(all_up_done(dag, pre, i as usize)) by { if i != n { assert(post[i].state == pre[i].state); } }
+        assert forall|u: usize| #![trigger dag.is_nbr(i as usize, Direction::Incoming, u)] dag.is_nbr(i as usize, Direction::Incoming, u)
+            implies finished(post[u as int].state) by {
+            assert(dag.has_edge(u, i as usize));
+            assert(finished(pre[u as int].state));
+            if u as int != n { assert(post[u as int].state == pre[u as int].state); }
+        }
+    }
+    assert forall|i: int| 0 <= i < post.len() && cleanup_reached(#[trigger] post[i].state) implies all_down_done(dag, post, i as usize) by {
+        assert(all_down_done(dag, pre, i as usize)) by { if i != n { assert(post[i].state == pre[i].state); } }
+        assert forall|d: usize| #![trigger dag.is_nbr(i as usize, Direction::Outgoing, d)] dag.is_nbr(i as usize, Direction::Outgoing, d)
+            implies finished(post[d as int].state) by {
+            assert(dag.has_edge(i as usize, d));
+            assert(finished(pre[d as int].state));
+            if d as int != n { assert(post[d as int].state == pre[d as int].state); }
+        }
+    }
+}
+
+/// gates survive any change that keeps every `finished` verdict and creates no new gated state
+proof fn lemma_gates_same_status(pre: Seq<NodeInfo>, post: Seq<NodeInfo>, dag: &GraphType, dag2: &GraphType)
+    requires
+        gates_ok(pre, dag), pre.len() == post.len(), edges_in_range(dag, pre.len()),
+        forall|x: usize, y: usize| #![trigger dag2.has_edge(x, y)] dag2.has_edge(x, y) ==> dag.has_edge(x, y),
+        forall|i: int| 0 <= i < pre.len() ==> (finished(pre[i].state) ==> finished(#[trigger] post[i].state)),
+        forall|i: int| 0 <= i < pre.len() && needs_up(#[trigger] post[i].state) ==> needs_up(pre[i].state) || all_up_done(dag, pre, i as usize),
+        forall|i: int| 0 <= i < pre.len() && cleanup_reached(#[trigger] post[i].state) ==> cleanup_reached(pre[i].state) || all_down_done(dag, pre, i as usize),
+    ensures gates_ok(post, dag2),
+{
+    assert forall|i: int| 0 <= i < post.len() && needs_up(#[trigger] post[i].state) implies all_up_done(dag2, post, i as usize) by {
+        assert(all_up_done(dag, pre, i as usize));
+        assert forall|u: usize| #![trigger dag2.is_nbr(i as usize, Direction::Incoming, u)] dag2.is_nbr(i as usize, Direction::Incoming, u)
+            implies finished(post[u as int].state) by {
+            assert(dag2.has_edge(u, i as usize));
+            assert(dag.has_edge(u, i as usize));
+            assert(dag.is_nbr(i as usize, Direction::Incoming, u));
+            assert(finished(pre[u as int].state));
+        }
+    }
+    assert forall|i: int| 0 <= i < post.len() && cleanup_reached(#[trigger] post[i].state) implies all_down_done(dag2, post, i as usize) by {
+        assert(all_down_done(dag, pre, i as usize));
+        assert forall|d: usize| #![trigger dag2.is_nbr(i as usize, Direction::Outgoing, d)] dag2.is_nbr(i as usize, Direction::Outgoing, d)
+            implies finished(post[d as int].state) by {
+            assert(dag2.has_edge(i as usize, d));
+            assert(dag.has_edge(i as usize, d));
+            assert(dag.is_nbr(i as usize, Direction::Outgoing, d));
+            assert(finished(pre[d as int].state));
+        }
+    }
 }
 
 proof fn lemma_core_x(jobs: Seq<NodeInfo>, m: Map<String, usize>, dag: &GraphType, ready: Set<String>, cleanup: Set<String>, fin: bool, x: int)
@@ -1213,6 +1298,8 @@ proof fn lemma_write_ok(pre: Seq<NodeInfo>, post: Seq<NodeInfo>, m: Map<String, 
     requires
         core_ok_x(pre, m, dag, r0, c0, fin, n), one_changed(pre, post, n),
         lc_le(pre[n].state, post[n].state), out_wf_one(post[n]),
+        needs_up(post[n].state) ==> needs_up(pre[n].state) || all_up_done(dag, pre, n as usize),
+        cleanup_reached(post[n].state) ==> cleanup_reached(pre[n].state) || all_down_done(dag, pre, n as usize),
         pre[n].history_output is Some ==> post[n].history_output == pre[n].history_output,
         is_ready(pre[n].state) == is_ready(post[n].state) ==> r1 =~= r0,
         is_ready(pre[n].state) && !is_ready(post[n].state) ==> r1 =~= r0.remove(pre[n].job_id),
@@ -1228,15 +1315,28 @@ proof fn lemma_write_ok(pre: Seq<NodeInfo>, post: Seq<NodeInfo>, m: Map<String, 
     lemma_out_after_write(pre, post, n);
     lemma_step_after_write(pre, post, n);
     lemma_lc_consequences(pre[n].state, post[n].state);
+    lemma_gates_after_write(pre, post, dag, n);
     if fin { lemma_all_finished_after_write(pre, post, n); }
+}
+
+/// a pre-offer move into the "ready but delayed" state happens only with all upstreams finished (G1)
+spec fn soft_gate(pre: Seq<NodeInfo>, post: Seq<NodeInfo>, dag: &GraphType) -> bool {
+    forall|i: int| 0 <= i < pre.len() && needs_up(#[trigger] post[i].state) && !needs_up(pre[i].state) ==> all_up_done(dag, pre, i as usize)
 }
 
 /// helper calls that only move pre-offer states
 proof fn lemma_soft_ok(pre: Seq<NodeInfo>, post: Seq<NodeInfo>, m: Map<String, usize>, dag: &GraphType,
     r0: Set<String>, c0: Set<String>, fin: bool)
-    requires core_ok(pre, m, dag, r0, c0, fin), jobs_soft(pre, post),
+    requires core_ok(pre, m, dag, r0, c0, fin), jobs_soft(pre, post), soft_gate(pre, post, dag),
     ensures core_ok(post, m, dag, r0, c0, fin), jobs_step(pre, post),
 {
+    assert forall|i: int| 0 <= i < pre.len() implies (finished(pre[i].state) ==> finished(#[trigger] post[i].state)) by {
+        assert(post[i].job_id == pre[i].job_id);
+    }
+    assert forall|i: int| 0 <= i < pre.len() && cleanup_reached(#[trigger] post[i].state) implies cleanup_reached(pre[i].state) by {
+        assert(post[i].job_id == pre[i].job_id);
+    }
+    lemma_gates_same_status(pre, post, dag, dag);
     assert forall|i: int| 0 <= i < post.len() implies #[trigger] m.contains_key(post[i].job_id)
             && m[post[i].job_id] == i && valid_id(post[i].job_id@) by {
         assert(post[i].job_id == pre[i].job_id);
@@ -1299,8 +1399,19 @@ proof fn lemma_cleanup_ok(pre: Seq<NodeInfo>, post: Seq<NodeInfo>, m: Map<String
         core_ok(pre, m, dag, r0, c0, fin), cleanup_frame(pre, post),
         forall|i: int| 0 <= i < post.len() ==> (is_rfc(#[trigger] post[i].state) <==> c1.contains(post[i].job_id)),
         forall|k: String| #[trigger] c1.contains(k) ==> c0.contains(k) || exists|i: int| 0 <= i < pre.len() && #[trigger] pre[i].job_id == k,
+        forall|i: int| 0 <= i < pre.len() && is_rfc(#[trigger] post[i].state) && !is_rfc(pre[i].state) ==> all_down_done(dag, pre, i as usize),
     ensures core_ok(post, m, dag, r0, c1, fin), jobs_step(pre, post),
 {
+    assert forall|i: int| 0 <= i < pre.len() implies (finished(pre[i].state) ==> finished(#[trigger] post[i].state)) by {
+        assert(post[i].job_id == pre[i].job_id);
+    }
+    assert forall|i: int| 0 <= i < pre.len() && needs_up(#[trigger] post[i].state) implies needs_up(pre[i].state) by {
+        assert(post[i].job_id == pre[i].job_id);
+    }
+    assert forall|i: int| 0 <= i < pre.len() && cleanup_reached(#[trigger] post[i].state) implies cleanup_reached(pre[i].state) || all_down_done(dag, pre, i as usize) by {
+        assert(post[i].job_id == pre[i].job_id);
+    }
+    lemma_gates_same_status(pre, post, dag, dag);
     assert forall|i: int| 0 <= i < post.len() implies #[trigger] m.contains_key(post[i].job_id)
             && m[post[i].job_id] == i && valid_id(post[i].job_id@) by {
         assert(post[i].job_id == pre[i].job_id);
@@ -1375,6 +1486,8 @@ proof fn lemma_arm_write(oldj: Seq<NodeInfo>, pre: Seq<NodeInfo>, post: Seq<Node
         jobs_step(oldj, pre), x == n || x == -1,
         core_ok_x(pre, m, dag, r0, c0, fin, x), one_changed(pre, post, n),
         lc_le(pre[n].state, post[n].state), out_wf_one(post[n]),
+        needs_up(post[n].state) ==> needs_up(pre[n].state) || all_up_done(dag, pre, n as usize),
+        cleanup_reached(post[n].state) ==> cleanup_reached(pre[n].state) || all_down_done(dag, pre, n as usize),
         pre[n].history_output is Some ==> post[n].history_output == pre[n].history_output,
         is_ready(pre[n].state) == is_ready(post[n].state) ==> r1 =~= r0,
         is_ready(pre[n].state) && !is_ready(post[n].state) ==> r1 =~= r0.remove(pre[n].job_id),
@@ -1394,12 +1507,15 @@ proof fn lemma_arm_write(oldj: Seq<NodeInfo>, pre: Seq<NodeInfo>, post: Seq<Node
 proof fn lemma_arm_soft(oldj: Seq<NodeInfo>, pre: Seq<NodeInfo>, post: Seq<NodeInfo>, m: Map<String, usize>, dag: &GraphType,
     dag2: &GraphType, r0: Set<String>, c0: Set<String>, fin: bool)
     requires
-        jobs_step(oldj, pre), core_ok(pre, m, dag, r0, c0, fin), jobs_soft(pre, post),
-        edges_in_range(dag2, pre.len()),
+        jobs_step(oldj, pre), core_ok(pre, m, dag, r0, c0, fin), jobs_soft(pre, post), soft_gate(pre, post, dag),
+        edges_in_range(dag2, pre.len()), dag_dom_same(dag, dag2),
     ensures core_ok(post, m, dag2, r0, c0, fin), jobs_step(oldj, post), jobs_step(pre, post), core_ok_x(post, m, dag2, r0, c0, fin, -1),
 {
-    lemma_core_x(post, m, dag2, r0, c0, fin, -1);
     lemma_soft_ok(pre, post, m, dag, r0, c0, fin);
+    lemma_dag_dom_range(dag, dag2, pre.len());
+    assert forall|i: int| 0 <= i < post.len() implies (finished(post[i].state) ==> finished(#[trigger] post[i].state)) by {}
+    lemma_gates_same_status(post, post, dag, dag2);
+    lemma_core_x(post, m, dag2, r0, c0, fin, -1);
     lemma_jobs_step_trans(oldj, pre, post);
 }
 
@@ -1409,9 +1525,14 @@ proof fn lemma_arm_touch(oldj: Seq<NodeInfo>, pre: Seq<NodeInfo>, post: Seq<Node
         jobs_step(oldj, pre), core_ok(pre, m, dag, r0, c0, fin), jobs_touch(pre, post),
     ensures core_ok(post, m, dag, r0, c0, fin), jobs_step(oldj, post), jobs_step(pre, post), core_ok_x(post, m, dag, r0, c0, fin, -1),
 {
-    lemma_core_x(post, m, dag, r0, c0, fin, -1);
     lemma_touch_is_soft(pre, post);
+    assert(soft_gate(pre, post, dag)) by {
+        assert forall|i: int| 0 <= i < pre.len() && needs_up(#[trigger] post[i].state) && !needs_up(pre[i].state) implies all_up_done(dag, pre, i as usize) by {
+            assert(post[i].state == pre[i].state);
+        }
+    }
     lemma_arm_soft(oldj, pre, post, m, dag, dag, r0, c0, fin);
+    lemma_core_x(post, m, dag, r0, c0, fin, -1);
 }
 
 proof fn lemma_arm_cleanup(oldj: Seq<NodeInfo>, pre: Seq<NodeInfo>, post: Seq<NodeInfo>, m: Map<String, usize>, dag: &GraphType,
@@ -1420,6 +1541,7 @@ proof fn lemma_arm_cleanup(oldj: Seq<NodeInfo>, pre: Seq<NodeInfo>, post: Seq<No
         jobs_step(oldj, pre), core_ok(pre, m, dag, r0, c0, fin), cleanup_frame(pre, post),
         forall|i: int| 0 <= i < post.len() ==> (is_rfc(#[trigger] post[i].state) <==> c1.contains(post[i].job_id)),
         forall|k: String| #[trigger] c1.contains(k) ==> c0.contains(k) || exists|i: int| 0 <= i < pre.len() && #[trigger] pre[i].job_id == k,
+        forall|i: int| 0 <= i < pre.len() && is_rfc(#[trigger] post[i].state) && !is_rfc(pre[i].state) ==> all_down_done(dag, pre, i as usize),
     ensures core_ok(post, m, dag, r0, c1, fin), jobs_step(oldj, post), jobs_step(pre, post), core_ok_x(post, m, dag, r0, c1, fin, -1),
 {
     lemma_core_x(post, m, dag, r0, c1, fin, -1);
@@ -1524,6 +1646,7 @@ proof fn lemma_set_output_ok(pre: Seq<NodeInfo>, post: Seq<NodeInfo>, m: Map<Str
     lemma_ids_after_write(pre, post, m, n);
     lemma_ready_set_after_write(pre, post, m, r0, r0, n);
     lemma_cleanup_set_after_write(pre, post, m, c0, c0, n);
+    lemma_gates_after_write(pre, post, dag, n);
     assert(out_wf_one(pre[n]));
     lemma_lc_order(pre[n].state, pre[n].state, pre[n].state);
     lemma_step_after_write(pre, post, n);
@@ -1705,7 +1828,7 @@ proof fn lemma_add_node_ok(pre: Seq<NodeInfo>, post: Seq<NodeInfo>, m0: Map<Stri
         forall|i: int| 0 <= i < pre.len() ==> #[trigger] post[i] == pre[i],
         forall|i: int| 0 <= i < pre.len() ==> (#[trigger] pre[i]).job_id@ != post[pre.len() as int].job_id@,
         valid_id(post[pre.len() as int].job_id@),
-        pre_offer(post[pre.len() as int].state), post[pre.len() as int].history_output is None,
+        fresh_state(post[pre.len() as int].state), post[pre.len() as int].history_output is None,
         m1 == m0.insert(post[pre.len() as int].job_id, pre.len() as usize),
         dag1.nodes_set() == dag0.nodes_set().insert(pre.len() as usize), dag1.edges() == dag0.edges(),
     ensures core_ok(post, m1, dag1, ready, cleanup, false),
@@ -1738,6 +1861,28 @@ proof fn lemma_add_node_ok(pre: Seq<NodeInfo>, post: Seq<NodeInfo>, m0: Map<Stri
     }
     assert forall|a: usize, b: usize| #![trigger dag1.has_edge(a, b)] dag1.has_edge(a, b) implies a < post.len() && b < post.len() && a != b by {
         assert(dag0.has_edge(a, b));
+    }
+    assert forall|i: int| 0 <= i < post.len() && needs_up(#[trigger] post[i].state) implies all_up_done(dag1, post, i as usize) by {
+        assert(i < n);
+        assert(post[i] == pre[i]);
+        assert(all_up_done(dag0, pre, i as usize));
+        assert forall|u: usize| #![trigger dag1.is_nbr(i as usize, Direction::Incoming, u)] dag1.is_nbr(i as usize, Direction::Incoming, u)
+            implies finished(post[u as int].state) by {
+            assert(dag0.has_edge(u, i as usize));
+            assert(dag0.is_nbr(i as usize, Direction::Incoming, u));
+            assert(post[u as int] == pre[u as int]);
+        }
+    }
+    assert forall|i: int| 0 <= i < post.len() && cleanup_reached(#[trigger] post[i].state) implies all_down_done(dag1, post, i as usize) by {
+        assert(i < n);
+        assert(post[i] == pre[i]);
+        assert(all_down_done(dag0, pre, i as usize));
+        assert forall|d: usize| #![trigger dag1.is_nbr(i as usize, Direction::Outgoing, d)] dag1.is_nbr(i as usize, Direction::Outgoing, d)
+            implies finished(post[d as int].state) by {
+            assert(dag0.has_edge(i as usize, d));
+            assert(dag0.is_nbr(i as usize, Direction::Outgoing, d));
+            assert(post[d as int] == pre[d as int]);
+        }
     }
 }
 
@@ -1807,4 +1952,56 @@ proof fn lemma_upfail_kept(a: Seq<Signal>, b: Seq<Signal>, d: usize)
     assert(b.contains(a[k]));
     let q = choose|q: int| 0 <= q < b.len() && b[q] == a[k];
     assert(b[q].kind == SignalKind::JobUpstreamFailure && b[q].node_idx == d);
+}
+
+/// pending "ready to run" decisions were taken with all upstreams finished (C02)
+spec fn sigs_gate_ok(s: Seq<Signal>, from: int, dag: &GraphType, jobs: Seq<NodeInfo>) -> bool {
+    forall|k: int| from <= k < s.len() && (#[trigger] s[k]).kind == SignalKind::JobReadyToRun ==> all_up_done(dag, jobs, s[k].node_idx)
+}
+
+proof fn lemma_sigs_gate_step(s: Seq<Signal>, from: int, dag: &GraphType, dag2: &GraphType, a: Seq<NodeInfo>, b: Seq<NodeInfo>)
+    requires sigs_gate_ok(s, from, dag, a), jobs_step(a, b), dag_dom_same(dag, dag2), 0 <= from,
+        forall|k: int| 0 <= k < s.len() ==> (#[trigger] s[k]).node_idx < a.len(), edges_in_range(dag, a.len()),
+    ensures sigs_gate_ok(s, from, dag2, b),
+{
+    lemma_dag_dom_range(dag, dag2, a.len());
+    assert forall|k: int| from <= k < s.len() && (#[trigger] s[k]).kind == SignalKind::JobReadyToRun implies all_up_done(dag2, b, s[k].node_idx) by {
+        let n = s[k].node_idx;
+        assert(all_up_done(dag, a, n));
+        assert forall|u: usize| #![trigger dag2.is_nbr(n, Direction::Incoming, u)] dag2.is_nbr(n, Direction::Incoming, u) implies finished(b[u as int].state) by {
+            assert(dag.is_nbr(n, Direction::Incoming, u));
+            assert(dag.has_edge(u, n));
+            assert(finished(a[u as int].state));
+            assert(lc_le(a[u as int].state, b[u as int].state));
+            lemma_lc_consequences(a[u as int].state, b[u as int].state);
+        }
+    }
+}
+
+proof fn lemma_sigs_gate_subset(a: Seq<Signal>, b: Seq<Signal>, dag: &GraphType, jobs: Seq<NodeInfo>)
+    requires sigs_gate_ok(a, 0, dag, jobs), forall|k: int| 0 <= k < b.len() ==> a.contains(#[trigger] b[k]),
+    ensures sigs_gate_ok(b, 0, dag, jobs),
+{
+    assert forall|k: int| 0 <= k < b.len() && (#[trigger] b[k]).kind == SignalKind::JobReadyToRun implies all_up_done(dag, jobs, b[k].node_idx) by {
+        let q = choose|q: int| 0 <= q < a.len() && a[q] == b[k];
+        assert(a[q].kind == SignalKind::JobReadyToRun);
+    }
+}
+
+proof fn lemma_sigs_gate_ext(a: Seq<Signal>, b: Seq<Signal>, n: nat, dag: &GraphType, jobs: Seq<NodeInfo>)
+    requires sigs_gate_ok(a, 0, dag, jobs), sig_ext_consider(a, b, n),
+    ensures sigs_gate_ok(b, 0, dag, jobs),
+{
+    assert forall|k: int| 0 <= k < b.len() && (#[trigger] b[k]).kind == SignalKind::JobReadyToRun implies all_up_done(dag, jobs, b[k].node_idx) by {
+        if k < a.len() { assert(b[k] == a[k]); }
+    }
+}
+
+/// job indices fit in usize (they are values of the id -> index map)
+proof fn lemma_idx_fits(jobs: Seq<NodeInfo>, m: Map<String, usize>, i: int)
+    requires ids_wf(jobs, m), 0 <= i < jobs.len(),
+    ensures (i as usize) as int == i,
+{
+    assert(m.contains_key(jobs[i].job_id));
+    assert(m[jobs[i].job_id] == i);
 }
